@@ -4,7 +4,7 @@ import copy
 import hashlib
 
 from simv import boot  # noqa: F401
-from simv.actors import ReqCtx, Runtime, canon, cook, forget
+from simv.actors import ReqCtx, Runtime, canon, consume_args, cook, forget
 from simv.gen.document import gen_document, gen_variables
 from simv.gen.schema import gen_schema
 from simv.model.document import print_document
@@ -112,6 +112,7 @@ def execute_once(engine, text, op_name, variables, plan, choice, scheduler="rand
     async def main():
         resp = await engine.execute(text, operation_name=op_name, context=ctx,
                                     variables=copy.deepcopy(variables), initial_value=root_value)
+        consume_args(rt)
         me = asyncio.current_task()
         out.tasks_alive = len([t for t in asyncio.all_tasks(loop) if t is not me and not t.done()])
         out.parked_left = len([g for g in loop.parked if not g.fut.done()])
@@ -201,6 +202,7 @@ def run_batch(engine, reqs, choice, scheduler="random", busy_pct=30, point_mode=
             r.resp = await engine.execute(r.text, operation_name=r.op_name, context=r.ctx,
                                           variables=copy.deepcopy(r.variables),
                                           initial_value=r.plan.root_value if r.plan is not None else None)
+            consume_args(r.rt)
         except asyncio.CancelledError:
             r.cancelled = True
             raise
